@@ -247,7 +247,7 @@ func (k Keeper) UpdateVestingFunder(
 	}
 
 	// Perform clawback account update
-	va.FunderAddress = msg.NewFunderAddress
+	va.FunderAddress = newFunder.String()
 	ak.SetAccount(ctx, va)
 
 	telemetry.IncrCounter(
